@@ -215,6 +215,31 @@ def run(pid, tier, replay=None):
                               {"crash_before_boundary": k, "of": nb, "file_state_after_crash": state, "file_state_after_restart": state2,
                                "restart_exit": rs.returncode, "restart_stderr": rs.stderr[-300:]}, {"clause": "crash_restart"})
         chk.extra.setdefault("crash_points_materialised", {})[label] = len(list(points))
+        # an operating-system fault instead of a crash: the file system takes only L bytes of the new file (a full disk, a quota: the write is cut
+        # short, then fails) -- the save may fail, the wallet file must stay the complete previous or become the complete new wallet
+        newsize_ = len(json.dumps(new_proj, indent=4))
+        for L in sorted({1, 4096, newsize_ // 3, newsize_ - 10}):
+            if L <= 0:
+                continue
+            os.chdir(d)
+            try:
+                with open("wallet.json", "w") as f:
+                    json.dump(old_proj, f, indent=4)
+                if os.path.exists("wallet.json.new"):
+                    os.remove("wallet.json.new")
+            finally:
+                os.chdir(cwd)
+            pr = subprocess.run(["/venv/bin/python", os.path.join(ROOT, "harness/crashrun.py"), sk.REPO, "wallet_limit", str(L)], cwd=d, capture_output=True, text=True)
+            chk.case(("file_size_limit", label, L), nontrivial=True)
+            try:
+                got = json.load(open(os.path.join(d, "wallet.json")))
+                W.Wallet.load(open(os.path.join(d, "wallet.json")))
+                state = "old" if got == old_proj else "new" if got == new_proj else "other"
+            except Exception as e:
+                state = "unreadable: %r" % e
+            if state not in ("old", "new"):
+                chk.violation("C15:wallet_file_neither_complete_old_nor_complete_new_after_a_save_on_a_full_file_system",
+                              {"bytes_the_file_system_accepts": L, "new_wallet_bytes": newsize_, "file_state": state, "save": pr.stdout.strip()[:200]}, {"clause": "short_write"})
         shutil.rmtree(d, ignore_errors=True)
 
     # ---- (c2) the miner's main loop (the real MinerWatcher.__call__: start-up, message loop, shutdown path) hands keys out too: runs that
